@@ -59,6 +59,7 @@ structure St where
   fixF1 : Bool := true
   fixF9 : Bool := true
   fixF4 : Bool := true
+  tp : Option Tp.St := none                        -- C13: the threadpool machine being replayed
   fixF5 : Bool := true
   libBounds : List (Nat × Nat × Nat) := []                       -- (algorithm, n, value) of the library's bound functions
   libDBounds : List (Int × Nat × Nat) := []                      -- deflateBound (level, n, value)
@@ -729,10 +730,101 @@ def stepMain (s : St) (line : String) : St × String :=
     | _, _ => (s, "bad-op")
   | _ => stepMore s line
 
+/-! ### C13/C14: the threadpool machine replayed turn by turn against the real threadpool.c under the deterministic
+    scheduler (harness/tp_drv.c).  One TURN of a thread in the harness is one machine step, followed by the steps the
+    real thread takes without reaching a scheduling point: the unlocked part of the worker loop (`gotJob`), the result
+    callback (`callback`), the bookkeeping-only caller step when all jobs are dispatched, and the re-entry of the
+    `threadpool_destroy` loop after a join (the pool mutex is still held there). -/
+namespace TpDrv
+open Tp
+
+def silent (s : Tp.St) : Who → Bool
+  | .caller => s.cpc == .next false && s.nextJob ≥ s.njobs
+  | .handler => match s.hpc with | .callback _ => true | _ => false
+  | .worker t => ((s.thr[t]?).map (·.pc)) == some WPc.gotJob
+
+def settle (s : Tp.St) (w : Who) : Nat → Tp.St
+  | 0 => s
+  | fuel + 1 => if silent s w then (match step s (.run w) with | some s' => settle s' w fuel | none => s) else s
+
+def turn (s : Tp.St) (w : Who) : Option Tp.St :=
+  match step s (.run w) with
+  | none => none
+  | some s' =>
+    let afterJoin := match s.cpc, w with | .joinW _, .caller => true | _, _ => false
+    let s' := if afterJoin then (step s' (.run .caller)).getD s' else s'
+    some (settle s' w 4)
+
+def whoName : Who → _root_.String
+  | .caller => "c" | .handler => "h" | .worker t => "w" ++ toString t
+def parseWho (x : _root_.String) : Option Who :=
+  if x == "c" then some .caller else if x == "h" then some .handler
+  else if x.startsWith "w" then (x.drop 1).toString.toNat?.map Who.worker else none
+def allWho (s : Tp.St) : List Who := .caller :: .handler :: (List.range s.thr.size).map Who.worker
+def sleeping (s : Tp.St) : Who → Bool
+  | .caller => s.cpc == .next true || s.cpc == .destroy true
+  | .handler => match s.hpc with | .deq true => true | .waitRes _ true => true | _ => false
+  | .worker t => ((s.thr[t]?).map (·.pc)) == some (WPc.top true)
+def optJob : Option Nat → _root_.String | some j => toString j | none => "-1"
+def csv (l : List _root_.String) : _root_.String := ",".intercalate l
+def render (s : Tp.St) : _root_.String :=
+  if s.cpc == .done then "st done del=[" ++ csv (s.delivered.map optJob) ++ "]" else
+  "st count=" ++ toString s.count ++ " idle=[" ++ csv (s.idle.map toString) ++ "] q=[" ++ csv (s.queue.map toString) ++
+  "] nth=" ++ toString s.nthreads ++ " fin=" ++ (if s.finished then "1" else "0") ++
+  " del=[" ++ csv (s.delivered.map optJob) ++ "] thr=[" ++
+  ";".intercalate (s.thr.toList.map fun th =>
+    if th.pc == .exited then "x" else
+    (if th.running then "1" else "0") ++ "/" ++ optJob th.cb ++ "/" ++ optJob th.res ++ "/" ++ (if th.rq then "1" else "0")) ++
+  "] en=[" ++ csv (((allWho s).filter fun w => (step s (.run w)).isSome).map whoName) ++
+  "] sl=[" ++ csv (((allWho s).filter (sleeping s)).map whoName) ++ "]"
+end TpDrv
+
+def stepTp (s : St) (line : String) : Option (St × String) :=
+  match line.trimAscii.toString.splitOn " " with
+  | "tp.new" :: args =>
+    let m := Tp.init (kvNat args "max" 1) (kvNat args "jobs" 0) (kvNat args "ord" 1 == 1)
+    let m := TpDrv.settle m .caller 2
+    some ({ s with tp := some m }, TpDrv.render m)
+  | ["tp.step", x] =>
+    match s.tp with
+    | none => none
+    | some m =>
+      if x.startsWith "s:" then
+        match TpDrv.parseWho (x.drop 2).toString with
+        | some w => match Tp.step m (.spurious w) with
+          | some m' => some ({ s with tp := some m' }, TpDrv.render m')
+          | none => some (s, "dis")
+        | none => some (s, "dis")
+      else match TpDrv.parseWho x with
+        | some w => match TpDrv.turn m w with
+          | some m' => some ({ s with tp := some m' }, TpDrv.render m')
+          | none => some (s, "dis")
+        | none => some (s, "dis")
+  | ["tp.auto", r] =>
+    match s.tp, r.toNat? with
+    | some m, some r =>
+      let cand := (TpDrv.allWho m).filter fun w => (Tp.step m (.run w)).isSome
+      let sl := (TpDrv.allWho m).filter (TpDrv.sleeping m)
+      if sl.length > 0 && (r >>> 16) % 8 == 0 then
+        let w := sl[(r >>> 8) % sl.length]!
+        match Tp.step m (.spurious w) with
+        | some m' => some ({ s with tp := some m' }, "pick s:" ++ TpDrv.whoName w ++ " " ++ TpDrv.render m')
+        | none => some (s, "pick s:" ++ TpDrv.whoName w ++ " dis")
+      else if cand.length == 0 then some (s, "pick none " ++ TpDrv.render m)
+      else
+        let w := cand[r % cand.length]!
+        match TpDrv.turn m w with
+        | some m' => some ({ s with tp := some m' }, "pick " ++ TpDrv.whoName w ++ " " ++ TpDrv.render m')
+        | none => some (s, "pick " ++ TpDrv.whoName w ++ " dis")
+    | _, _ => none
+  | _ => none
+
 def step (s : St) (line : String) : St × String :=
   match stepCz s line with
   | some r => r
-  | none => stepMain s line
+  | none => match stepTp s line with
+    | some r => r
+    | none => stepMain s line
 
 partial def loop (h : IO.FS.Stream) (out : IO.FS.Stream) (s : St) : IO Unit := do
   let line ← h.getLine
